@@ -395,7 +395,9 @@ def check(env, rep, tier):
                             midv = rq.fields[hdr["mi"]].fields[hdr["hi"]].fields[hdr["di"]]
                         except Exception:
                             midv = None
-                    id_ok = isinstance(pend, EnumV) and list(pend.variants) == [1] and isinstance(pend.variants[1], StructV) \
+                    # (a fact 'payload == acknowledged id' can only come from a comparison made with the value in hand, i.e. on
+                    # a path on which the pending id was Some - also when the test was made on a copy: `x.message_id.is_some_and(..)`)
+                    id_ok = isinstance(pend, EnumV) and 1 in pend.variants and isinstance(pend.variants[1], StructV) \
                         and isinstance(pend.variants[1].fields[0], IntV) and isinstance(midv, IntV) \
                         and s.entails_eq(pend.variants[1].fields[0].aff, midv.aff)
                     if not (ep_ok and id_ok):
@@ -407,6 +409,7 @@ def check(env, rep, tier):
             I = new_interp(prog)
             import obsutil
             obsutil.track_equalities(I)
+            I.type_invariants["observe::Observer"] = obsutil.observer_invariant(prog)
             I.store_hooks.append(ack_store)
             st = State()
             args = subject_args(I, prog, ab, st, gargs)
